@@ -663,17 +663,19 @@ def build_cases(ctx, cfg, types, quick, with_charp=True):
 
 def run(ctx):
     quick = ctx.tier == "quick"
-    configs = CONFIGS[:3] if quick else CONFIGS
+    configs = CONFIGS[:2] if quick else CONFIGS
     import time
     t0 = time.time()
     specs, mods = [], []          # mods: (module name, cfg, types)
     for ci, cfg in enumerate(configs):
         key, st, en, _ = cfg
         if ci == 0:
-            chunks = [CATALOGUE[i::4] for i in range(4)]
+            # NB vec_ctuple must share a module with ctuple1: a ctuple used only as a C++ template
+            # argument is never declared (invalid C++; compile-time defect outside this property)
+            chunks = [CATALOGUE[:18], CATALOGUE[18:]]
         else:
             strs = [(n, t) for n, t in CATALOGUE if has_string(t)]
-            chunks = [strs[i::2] for i in range(2)]
+            chunks = [strs]
         for j, types in enumerate(chunks):
             mn = "c33_%s_%d" % (key, j)
             mods.append((mn, cfg, types))
@@ -695,7 +697,7 @@ def run(ctx):
     if r["json"] is None:
         ctx.corr_break("worker", "c33 worker", (r["err"] or "")[-1500:] + " rc=%s" % r["rc"], "JSON results")
         return
-    ctx.extra["timing_s"] = {"build": round(t1 - t0, 1), "run": round(time.time() - t1, 1)}
+    ctx.note("timing: build %.1f s, run %.1f s" % (t1 - t0, time.time() - t1))
     results = r["json"]
     mq = []
     for (cfg, fn, name, t, kind, v), got in zip(allcases, results):
